@@ -151,9 +151,13 @@ CLAIMS = {
              "period (np.roll/np.resize models, quotient-remainder encoding); transform/inverse_transform remove/restore exactly that "
              "component with the input's index (additive and multiplicative), never write the input or the estimator; update leaves the "
              "phase origin and the component unchanged; OptionalPassthrough applies the same switch in both directions (identity when "
-             "passing through, whatever state the object has been through); round-trip lemmas over the contracts.",
-        note="stretch index modelled as a contiguous integer range; Box-Cox / log / sklearn adaptor inverses and Detrender numerics are "
-             "bounded-tier only (floating point, transcendental functions); HampelFilter / Imputer index handling bounded-tier only",
+             "passing through, whatever state the object has been through); Detrender.transform / inverse_transform subtract / add the "
+             "trend forecast requested at exactly the series' own time points (absolute horizon = the series' index) and keep the index; "
+             "TabularToSeriesAdaptor applies the wrapped transformer to the series as one column and keeps the index; Imputer.transform "
+             "returns a new series on the input's index; round-trip lemmas over the contracts.",
+        note="stretch index modelled as a contiguous integer range; the trend forecaster / wrapped transformer are abstract "
+             "(deterministic); Box-Cox / log inverses (transcendental functions, scipy optimiser) and HampelFilter index handling are "
+             "bounded-tier only",
         technique="contract-based deductive verification: AST->VC generation (pyvc) + z3/cvc5; modular arithmetic via quotient/remainder",
         design="6/C13"),
     "C20": dict(
@@ -198,7 +202,9 @@ CLAIMS = {
              "series, frame f = mean of the step function over [f*l, (f+1)*l) for fractional l = length / num_intervals; exact reals), "
              "from_3d_numpy_to_2d_array (column-then-time order), "
              "SeriesToPrimitives/SeriesToSeriesRowTransformer.transform (row i = wrapped transformer applied to instance i, fresh clone), "
-             "TabularToSeriesAdaptor.transform/inverse_transform (series as one column, index kept).",
+             "TabularToSeriesAdaptor.transform/inverse_transform (series as one column, index kept), Imputer.transform (for 9 rules x "
+             "missing-value option: the operation chain is [replace the missing-value marker] -> the chosen rule -> forward fill -> "
+             "backward fill, each applied to the result of the previous step, on a copy of the input).",
         note="NOT proved, bounded tier only (22k cases quick, real transformers vs plain-python formulas): interpolation, "
              "column concatenation, random-interval feature extraction, slope, imputation rules, cosine, "
              "autocorrelation -- their code is pandas nested-DataFrame plumbing or floating point; assumed contracts: "
@@ -209,8 +215,9 @@ CLAIMS = {
         design="6/C14"),
     "C15": dict(
         category="other",
-        text="Proved part: the two numpy reshape kernels (from_3d_numpy_to_2d_array: cell (i, c*T + t) = X[i, c, t]; "
-             "from_multi_index_to_3d_numpy: instance-major rows become (instance, column, time), rejects frames without 2 levels) and the "
+        text="Proved part: the numpy reshape kernels (from_3d_numpy_to_2d_array: cell (i, c*T + t) = X[i, c, t]; "
+             "from_multi_index_to_3d_numpy: instance-major rows become (instance, column, time), rejects frames without 2 levels; "
+             "from_3d_numpy_to_nested: cell (i, j) = X[i, j, :] as Series or ndarray) and the "
              "lemma that the 2-d layout loses nothing. Everything else in the property (nested / long / multi-index round trips through "
              "pandas pivots and object cells) is decided only by the bounded stand-in tier and is NOT counted as proved.",
         note="bounded tier: hand-built panels with 1..3 (thorough ..8) instances, 1..3 columns, 2..4 (..12) time points, 151k cases quick; "
@@ -236,11 +243,13 @@ CLAIMS = {
              "features, each tree on its own intervals), TimeSeriesForestClassifier.predict and BaseClassifier.predict (label of a column "
              "attaining the row maximum, decoded through classes_ / the label encoder, one per instance), BaseClassifier.score "
              "(accuracy_score(y, predict(X))), column ensemble predict_proba / predict (average of the members on their own columns; "
-             "dropped / empty / remainder entries), BOSSEnsemble.predict_proba (vote shares); lemmas: averages and vote shares of "
+             "dropped / empty / remainder entries), BOSSEnsemble / ContractableBOSS / TemporalDictionaryEnsemble.predict_proba "
+             "((weighted) vote shares counted through the ensemble's own class dictionary), IndividualBOSS.predict (label i = one "
+             "nearest-neighbour query on bag i alone) and predict_proba (one-hot rows); lemmas: averages and vote shares of "
              "distributions are distributions (entries in [0, 1], rows sum to 1 -- induction over the columns).",
         note="trees / members / label encoder abstract; np.mean, np.std, _slope along a row window are uninterpreted functions of the "
              "cells (assumed: _slope formula, _get_column, LabelEncoder.inverse_transform, accuracy_score); 1..3 trees / members; "
-             "RISE, STSF, cBOSS, TDE, MUSE and the individual BOSS classifier are bounded-tier only (5k cases quick)",
+             "RISE, STSF, MUSE, the 1-NN search / SFA words and the ensembles' random tie-breaking in predict are bounded-tier only (5k cases quick)",
         technique="contract-based deductive verification: AST->VC generation (pyvc) + z3; argmax axiomatisation, abstract components, induction lemmas",
         design="6/C17"),
     "C18": dict(
